@@ -24,7 +24,7 @@ func init() {
 }
 
 func runC15(c *core.Check) {
-	c.Rule = "every base program (MC_E1 ASTs: quick 146 representatives of every production, thorough all depth-1 ASTs) x every sequence of <= MaxK damages (insert/replace with one of 47 damage tokens: brackets, quotes, template introducers and closers, heredoc markers, keywords, operators, invalid UTF-8, NUL, CR, backtick; delete; truncate; 12 positions), joined with and without spaces, embedded as bare expression, as attribute in a file with a block, and into a JSON document: all 9 entry points return within the watchdog, do not panic, return a non-nil result (or error diagnostics), give deep-equal results and equal diagnostics on a second call, and only well-formed diagnostics with in-bounds ranges; the partial body can be processed with schemas and evaluated without panic. Non-trivial = distinct damaged token sequence"
+	c.Rule = "every base program (MC_E1 ASTs: quick 146 representatives of every production, thorough all depth-1 ASTs) x every sequence of <= MaxK damages (insert/replace with one of 47 damage tokens: brackets, quotes, template introducers and closers, heredoc markers, keywords, operators, invalid UTF-8, NUL, CR, backtick; delete; truncate; 12 positions), joined with and without spaces, embedded as bare expression, as attribute in a file with a block, and into a JSON document: all 9 entry points return within the watchdog, do not panic, return a non-nil result (or error diagnostics), give deep-equal results and equal diagnostics on a second call, and only well-formed diagnostics with in-bounds ranges; the partial body can be processed with schemas and evaluated without panic; every native parse obeys the peeker protocol of Peeker.tla (checked on all parses through hooks, a sample validated by TLC). Non-trivial = distinct damaged token sequence"
 	c.Assumes = []string{"watchdog 20 s per call", "determinism = reflect.DeepEqual of results and equality of diagnostic texts and ranges"}
 	consts := map[string]string{"MaxK": "1", "BaseMode": "\"few\"", "MaxPos": "5"}
 	c15.Brief = c.Tier == "quick"
@@ -32,6 +32,20 @@ func runC15(c *core.Check) {
 		consts = map[string]string{"MaxK": "1", "BaseMode": "\"all\"", "MaxPos": "11"}
 	}
 	c.Extra["constants"] = consts
+	// the peeker protocol (Peeker.tla) is model-checked, every parse below is checked against it through the
+	// build-tag hooks, and a sample of the recorded event sequences is validated by TLC (Trace_Peeker.tla)
+	pst, perr := core.TLCRun{Module: "MC_Peeker", NoDump: true, Timeout: minutes(5)}.Stream(1, func(core.State) {})
+	c.AddTLC(pst)
+	if perr != nil || pst.ErrorKind != "" {
+		c.Broken("Peeker.tla does not satisfy its invariants: %v %s", perr, pst.ErrorMsg)
+		return
+	}
+	sample := int64(400)
+	if c.Tier == "thorough" {
+		sample = 4000
+	}
+	c15.StartPeekerRecording(sample, 5000)
 	streamTLC(c, core.TLCRun{Module: "MC_C15", Consts: consts, Timeout: minutes(40), KeepVars: []string{"e", "dmg"}},
 		func(st core.State) { c15.Handle(c, st) })
+	c15.FinishPeekerRecording(c)
 }
